@@ -2,7 +2,9 @@
 package c11
 
 import (
+	"bytes"
 	"fmt"
+	"github.com/dave/jennifer/jen"
 	"go/ast"
 	"go/constant"
 	"go/parser"
@@ -98,6 +100,54 @@ func check(c Case) error {
 			return fmt.Errorf("context %s: the statement renders %q; with an identifier in the literal's place, replaced by the literal's text %q, it is %q", c.Ctx, whole, text, want)
 		}
 	}
+	if err := valueCheck(c, text); err != nil {
+		return err
+	}
+	// the literal rendered as a fragment of its own (Statement.GoString / Render / RenderWithFile): the
+	// same value and type; one case in four after fragment renders that failed, recovered as a caller would
+	hsh := 0
+	for _, ch := range string(c.Val.V) {
+		hsh = hsh*31 + int(ch)
+	}
+	if hsh%4 == 0 {
+		func() {
+			defer func() { _ = recover() }()
+			_ = jen.Var().Id("leaked").Op("=").Render(&bytes.Buffer{}) // gofmt rejects it
+			_ = jen.Op("-").Lit(struct{ A int }{}).GoString()          // documented panic
+		}()
+		func() {
+			defer func() { _ = recover() }()
+			_ = jen.Id("leaked2").Op(")").RenderWithFile(&bytes.Buffer{}, jen.NewFile("q"))
+			_ = jen.Var().Id("leaked3").Op("=").Lit([]int{}).RenderWithFile(&bytes.Buffer{}, jen.NewFile("q"))
+		}()
+	}
+	var frags [3]string
+	if perr := hx.Safe(func() error {
+		st := (&recipe.Builder{}).Stmt(recipe.S().C("Lit", c.Val))
+		frags[0] = st.GoString()
+		b1, b2 := &bytes.Buffer{}, &bytes.Buffer{}
+		if err := st.Render(b1); err != nil {
+			return err
+		}
+		if err := st.RenderWithFile(b2, jen.NewFile("q")); err != nil {
+			return err
+		}
+		frags[1], frags[2] = b1.String(), b2.String()
+		return nil
+	}); perr != nil {
+		return fmt.Errorf("%s(%v) rendered as a fragment: %v", c.Val.T, v, perr)
+	}
+	for i, fr := range frags {
+		if err := valueCheck(c, fr); err != nil {
+			return fmt.Errorf("rendered as a fragment (%s): %v", []string{"GoString", "Render", "RenderWithFile"}[i], err)
+		}
+	}
+	return nil
+}
+
+// valueCheck: text evaluates to a constant of the value and type of the case.
+func valueCheck(c Case, text string) error {
+	v := c.Val.Go()
 	tv, err := litx.Eval(text)
 	if err != nil {
 		return fmt.Errorf("%s(%v) renders %q which does not evaluate: %v", c.Val.T, v, text, err)
